@@ -20,6 +20,8 @@ ev = os.path.join(V, "evidence", prop + ".json")
 ev_saved = open(ev).read() if os.path.exists(ev) else None
 try:
     r = sh(["git", "-C", wt, "apply", os.path.join(d, "patch.diff")])
+    if r.returncode:  # /repo HEAD moved since the seed was written: merge the hunks three-way
+        r = sh(["git", "-C", wt, "apply", "--3way", os.path.join(d, "patch.diff")])
     if r.returncode:
         print("PATCH DOES NOT APPLY\n" + r.stdout); sys.exit(2)
     env = dict(os.environ, VERIF_REPO=wt)
